@@ -10,7 +10,7 @@ from harness import lib, pagegen, c12work
 from harness.props import c01
 
 ASSUMPTIONS = c01.ASSUMPTIONS + [
-    "parts (a)/(b): Note.to_string is run for real on notes rebuilt from the compiled fields; part (c) runs the real db create / "
+    "parts (a)/(b)/(d): Note.to_string is run for real on the Note objects the real compiler built; part (c) runs the real db create / "
     "swog.execute / refresh_zoq_file on an indexed directory",
 ]
 TODAY = c01.TODAY
@@ -165,8 +165,7 @@ def theorem_tie(eng, rng, oc, n):
             oc.spec_fail.append((case, {k: r[k] for k in ("status", "nerrors")}, "a well-formed item compiles to one note", None))
             return False
         n1 = r["notes"][0]
-        tp = TodoPayload(priority=n1["todo"][0], status=NoteType(n1["todo"][1])) if n1["todo"] else None
-        emitted = Note(n1["body"], Path("p.zo"), n1["line"], todo_payload=tp).to_string()
+        emitted = r["texts"][0]       # the real Note object's text form
         want = eng.call("item_emit", it) + "\n"
         if emitted != want:
             oc.corr_mismatch.append(("Note.to_string vs render_item (emit_form it)", case, emitted, want))
@@ -176,6 +175,7 @@ def theorem_tie(eng, rng, oc, n):
 
 
 def run(oc, tier, seed):
+    pagegen.SAME_DAY_MOD_RATE = 0.25
     rng = random.Random(seed)
     pool = lib.pool()
     eng = lib.Engine()
